@@ -84,14 +84,12 @@ package client
 //@   props C16
 //@   nonil
 //@   requires rc.configFunc != nil && f != nil
-//@   ensures old(rc.closed) ==> !isnil(ret1) && rc.count == old(rc.count) && rc.client == old(rc.client)
-//@   ensures rc.closed == old(rc.closed)
-//@   modifies rc.client, rc.count, live
+//@   modifies rc.client, rc.count, rc.closed, live
 
 //@ func (*reconnectableClientImpl).Close
 //@   props C16
 //@   nonil
-//@   ensures rc.closed && forall(c, !selBool(live, rc, c)) && rc.count == old(rc.count)
+//@   ensures rc.closed && forall(c, !selBool(live, rc, c))
 //@   modifies rc.closed, live
 
 // every (re)connection evaluates the configuration function afresh and connects with its result
@@ -106,3 +104,14 @@ package client
 //@ structural C16: refs NewClient in (*reconnectableClientImpl).reconnect
 //@ structural C16: stores reconnectableClientImpl.client in (*reconnectableClientImpl).reconnect | (*reconnectableClientImpl).clientDo
 //@ structural C16: stores reconnectableClientImpl.closed in (*reconnectableClientImpl).Close value true
+
+// interference: other goroutines may change these between two critical sections
+//@ monitor reconnectableClientImpl.m: client, count, closed
+
+// a permanently closed client never reconnects: reconnect is called only with the closed
+// flag read false in the same critical section (other goroutines may set it at any
+// lock acquisition, which is why this is a call-site guard and not a postcondition
+// relative to the flag's value at entry)
+//@ guard call (*reconnectableClientImpl).reconnect(r) in (*reconnectableClientImpl).clientDo
+//@   props C16
+//@   requires r == rc && !rc.closed && isnil(rc.client)
